@@ -1,7 +1,7 @@
 (** C12 — SVG, PDF and PostScript output encode the drawing the rasteriser renders.
     Property theorems only; each is closed by [exact] of a lemma proved elsewhere. *)
 From Coq Require Import QArith Qabs ZArith List Bool.
-From CV Require Import Geom.Matrix Render.Sem Render.GState Render.GStateProofs Render.Backends Render.UnitsProofs.
+From CV Require Import Geom.Matrix Render.Sem Render.GState Render.GStateProofs Render.Backends Render.UnitsProofs Render.PsProofs.
 Import ListNotations.
 Open Scope Q_scope.
 
@@ -27,12 +27,21 @@ Theorem C12_pdf_stroke_evenodd_refuted : exists d, okdraw d /\
 Proof. exact pdf_stroke_evenodd_refuted. Qed.
 Print Assumptions C12_pdf_stroke_evenodd_refuted.
 
-(** cache_transparent_ps, colour part (partial: the other PostScript caches are tied by the differential run only):
-    after any history of setPaint calls the current colour is the un-premultiplied colour of the last paint. *)
-Theorem C12_cache_transparent_ps_colour_partial : forall ps, ps <> [] ->
+(** cache_transparent_ps + paint_order: for EVERY sequence of draws with uniform-colour paints (no zero-width native stroke, i.e.
+    no singular view) interpreting what the PostScript writer emits from the PLRM initial graphics state (black, width 1, butt,
+    miter, limit 10, solid) yields, in order, exactly the paint operations the draws ask for: colour, width, cap, join, miter
+    limit and dash pattern of every painting operator are the requested ones, whatever the five caches skipped; gsave/grestore
+    around the fill keep the path for the stroke. *)
+Theorem C12_cache_transparent_ps : forall ds, Forall okdraw_ps ds ->
+  exec_ps (ps_write true ds psw_init) (psg_init, []) = flat_map ps_spec ds.
+Proof. exact cache_transparent_ps. Qed.
+Print Assumptions C12_cache_transparent_ps.
+
+(** the colour cache alone, over bare histories of setPaint calls *)
+Theorem C12_cache_transparent_ps_colour : forall ps, ps <> [] ->
   ps_final_col (ps_paints true ps psw_init) (0, 0, 0) = ps_col (last ps PNone).
 Proof. exact cache_transparent_ps_colour. Qed.
-Print Assumptions C12_cache_transparent_ps_colour_partial.
+Print Assumptions C12_cache_transparent_ps_colour.
 
 Theorem C12_cache_transparent_ps_refuted : exists ps, ps <> [] /\
   ps_final_col (ps_paints false ps psw_init) (0, 0, 0) <> ps_col (last ps PNone) /\
